@@ -215,7 +215,7 @@ PROPS = {
         ],
         "units": [
             regress("C11"),
-            {"run": "^TestC11$", "quick": 1500, "thorough": 3000},
+            {"run": "^TestC11$", "quick": 2200, "thorough": 3000},
         ],
     },
     "C20": {
